@@ -6,7 +6,7 @@ From DSD Require Import Base.Str Base.Errors Model.ComplexUtils Model.RegStr Mod
   Proofs.RegHeap Proofs.RegInv Proofs.RegCalls Proofs.RegExt Proofs.ReaderBasic Proofs.ReaderStmt Proofs.ReaderHeap
   Proofs.ReaderInv Proofs.ReaderHoare Proofs.ReaderNoFault Proofs.ReaderThms Proofs.ReaderBuilds Proofs.ReaderKernel
   Proofs.ReaderMore Proofs.ReaderSys Proofs.ReaderSysA Proofs.ReaderSysB Proofs.ReaderSysC Proofs.ReaderSysD
-  Proofs.ReaderSysE Proofs.ReaderSysF Proofs.ReaderSysG Proofs.ReaderSysH Proofs.ReaderSysI.
+  Proofs.ReaderSysE Proofs.ReaderSysF Proofs.ReaderSysS Proofs.ReaderSysX Proofs.ReaderSysY Proofs.ReaderSysG Proofs.ReaderSysH Proofs.ReaderSysI.
 From DSD Require Model.Iupac.
 Import ListNotations.
 
@@ -43,7 +43,7 @@ Section Doc.
     { unfold cut_roots. cbn [map]. rewrite firstn_all, app_nil_r. destruct (r_st r); reflexivity. }
     rewrite Ecut, (collect_id ct _ (si_sok _ _ _ _ _ _ _ _ _ C)), with_st_id in E3.
     split; [exact E3|]. split.
-    - destruct C as [Csok Cattr Cheld Cdom Creg CrR Ckeys Cdecl CkR]. constructor.
+    - destruct C as [Csok Cattr Cheld Cdom Creg CrR Ckeys Cdecl CkR Ccplx]. constructor.
       + exact Csok.
       + exact Cattr.
       + exact Cheld.
@@ -53,6 +53,8 @@ Section Doc.
       + intros k n Hn. apply declared_app. left. apply Ckeys. destruct k; exact Hn.
       + intros x l Hx. rewrite decl_doms_app in Hx. cbn in Hx. rewrite app_nil_r in Hx. apply (Cdecl x l Hx).
       + intros j Hj. destruct (CkR j Hj) as [ri [H1 H2]]. exists ri. split; [apply in_or_app; left; exact H1 | exact H2].
+      + intros n0 names0 sst0 Hin. rewrite decl_cplx_snoc in Hin. cbn [cplx_entry] in Hin. rewrite app_nil_r in Hin.
+        destruct (Ccplx n0 names0 sst0 Hin) as [conc Hb]. exists conc. exact Hb.
     - intros s Hs. apply in_app_or in Hs. destruct Hs as [Hs|[<-|[]]]; [|exact Logic.I].
       apply built_add_other. apply B. exact Hs.
   Qed.
@@ -63,18 +65,19 @@ Section Doc.
   Definition adm (prev : list stmt) (s : stmt) : Prop :=
     match s with
     | SDl x l =>
-        starred x = false /\ nonempty x = true /\ (0 <= l)%Z /\ ~ In x (map fst (decl_doms prev))
+        starred x = false /\ nonempty x = true /\ str_eqb x sPlus = false /\ (0 <= l)%Z /\ ~ In x (map fst (decl_doms prev))
     | SSl x sq chk =>
-        starred x = false /\ nonempty x = true /\ ~ In x (map fst (decl_doms prev)) /\
+        starred x = false /\ nonempty x = true /\ str_eqb x sPlus = false /\ ~ In x (map fst (decl_doms prev)) /\
         match chk with Some n => Z.eqb n (Z.of_nat (length sq)) = true | None => True end /\
         exists sq', Iupac.reverse_wc_complement false sq = Ok sq'
     | SComp n ds =>
-        nonempty n = true /\ ~ In n (map fst (decl_strands prev)) /\ ~ In ds (map snd (decl_strands prev)) /\
+        nonempty n = true /\ starred n = false /\
+        ~ In n (map fst (decl_strands prev)) /\ ~ In ds (map snd (decl_strands prev)) /\
         Forall (fun d => In d (declared KindD prev)) ds
     | SKer n names sst _ =>
-        nonempty n = true /\ ~ In n (map fst (decl_cplx prev)) /\ length names = length sst /\
-        Forall (fun x => str_eqb x sPlus = true \/ In x (declared KindD prev)) names /\
-        exists cdict cn e, rot_dict names sst = Some cdict /\ canon_of cdict = Some (cn, e) /\ rot_disjoint prev cdict
+        nonempty n = true /\ ~ In n (map fst (decl_cplx prev)) /\
+        exists names' sst' cdict cn e, expand_ker prev names sst = Some (names', sst') /\
+          rot_dict names' sst' = Some cdict /\ canon_of cdict = Some (cn, e) /\ rot_disjoint prev cdict
     | SMac n xs =>
         nonempty n = true /\ In n xs /\ ~ In n (map fst (decl_macs prev)) /\
         Forall (fun x => In x (map fst (decl_cplx prev))) xs /\
@@ -84,7 +87,11 @@ Section Doc.
         Forall (fun x => In x (mdecl (is_cond (ri_type ri)) prev)) (ri_reactants ri) /\
         Forall (fun x => In x (mdecl (is_cond (ri_type ri)) prev)) (ri_products ri) /\
         (forall ri', In ri' (decl_rxns prev) -> sig_differs (rxn_sig prev ri') (rxn_sig prev ri))
-    | SSC _ _ _ => False
+    | SSC n ss sst =>
+        nonempty n = true /\ ~ In n (map fst (decl_cplx prev)) /\
+        Forall (fun s => In s (map fst (decl_strands prev))) ss /\
+        exists names cdict cn e, ssc_names prev ss = Some names /\ length names = length (no_space sst) /\
+          rot_dict names (no_space sst) = Some cdict /\ canon_of cdict = Some (cn, e) /\ rot_disjoint prev cdict
     | SOther => True
     end.
 
@@ -110,22 +117,25 @@ Section Doc.
     { intros r' acc' [H1 [H2 H3]] Hs. exists r', acc'. split; [exact H1|]. split; [exact H2|].
       rewrite (lt_other _ _ _ _ H3). destruct s; try (rewrite app_nil_r; reflexivity). congruence. }
     destruct s as [x l|x sq chk|n ds|n ss sst|n names sst conc|n xs|ri|]; cbn [adm] in Ha.
-    - destruct Ha as [H1 [H2 [H3 H4]]].
+    - destruct Ha as [H1 [H2 [Hp [H3 H4]]]].
       destruct (step_dom ct cd cs cc cm cr CO PL prev r acc line (SDl x l) x l None SI Hdec) as [r' [acc' H]]; auto.
       + left. auto.
       + eapply Fin; [exact H | discriminate].
-    - destruct Ha as [H1 [H2 [H3 [H4 [sq' H5]]]]].
+    - destruct Ha as [H1 [H2 [Hp [H3 [H4 [sq' H5]]]]]].
       destruct (step_dom ct cd cs cc cm cr CO PL prev r acc line (SSl x sq chk) x (Z.of_nat (length sq)) (Some (sq, sq'))
                   SI Hdec) as [r' [acc' H]]; auto.
       + right. exists sq, chk, sq'. auto 10.
       + lia.
       + eapply Fin; [exact H | discriminate].
-    - destruct Ha as [H1 [H2 [H3 H4]]].
-      destruct (step_strand ct cd cs cc cm cr CO PL prev r acc line n ds SI Hdec H1 H2 H3 H4) as [r' [acc' H]].
+    - destruct Ha as [H1 [Hu [H2 [H3 H4]]]].
+      destruct (step_strand ct cd cs cc cm cr CO PL prev r acc line n ds SI Hdec H1 Hu H2 H3 H4) as [r' [acc' H]].
       eapply Fin; [exact H | discriminate].
-    - destruct Ha.
-    - destruct Ha as [H1 [H2 [H3 [H4 [cdict [cn [e [H5 [H6 H7]]]]]]]]].
-      destruct (step_kernel ct cd cs cc cm cr CO PL prev r acc line n names sst conc cdict cn e SI Hdec H1 H2 H3 H4 H5 H6 H7)
+    - destruct Ha as [H1 [H2 [H3 [names [cdict [cn [e [H4 [H5 [H6 [H7 H8]]]]]]]]]]].
+      destruct (step_ssc ct cd cs cc cm cr CO PL prev r acc line n ss sst names cdict cn e SI Hdec H1 H2 H3 H4 H5 H6 H7 H8)
+        as [r' [acc' H]].
+      eapply Fin; [exact H | discriminate].
+    - destruct Ha as [H1 [H2 [names' [sst' [cdict [cn [e [H3 [H4 [H5 H6]]]]]]]]]].
+      destruct (step_kernel ct cd cs cc cm cr CO PL prev r acc line n names sst conc names' sst' cdict cn e SI Hdec H1 H2 H3 H4 H5 H6)
         as [r' [acc' H]].
       eapply Fin; [exact H | discriminate].
     - destruct Ha as [H1 [H2 [H3 [H4 H5]]]].
@@ -176,6 +186,7 @@ Section Doc.
     - intros k n Hn. destruct k; destruct Hn.
     - intros x l [].
     - intros j [].
+    - intros n0 names0 sst0 [].
   Qed.
 
   (* what read_pil returns: every statement has built its objects, and nothing else is in the result *)
@@ -183,6 +194,7 @@ Section Doc.
     rd_built : forall s, In s ss -> Built r out s;
     rd_keys : forall k n, In n (map fst (dict_of k out)) -> In n (declared k ss);
     rd_rxns : forall j, In j (po_det out ++ po_con out) -> exists ri, In (SRxn ri) ss /\ BuiltRxn r out ri j;
+    rd_cplx : forall n names sst, In (n, (names, sst)) (decl_cplx ss) -> exists conc, BuiltCplx cc r out n names sst conc;
     rd_other : po_other out = other_lines lines ss
   }.
 
@@ -199,6 +211,7 @@ Section Doc.
     - exact B.
     - apply (si_keys _ _ _ _ _ _ _ _ _ C).
     - apply (si_kR _ _ _ _ _ _ _ _ _ C).
+    - apply (si_cplx _ _ _ _ _ _ _ _ _ C).
     - exact O.
   Qed.
 End Doc.
